@@ -41,6 +41,20 @@ _SINK = _Sink()
 
 NSHARDS = int(os.environ.get("VERIF_SHARDS", "16"))
 SCALE = float(os.environ.get("VERIF_SCALE", "1"))
+# The quick tier's case counts and wall budgets written in the campaign tables are multiplied by these factors, chosen so that every
+# quick check takes about 30-60 s on 16 cores (the counts in the tables date from when the checks were first built and left most of
+# that time unused; rare trigger classes are met in proportion to the number of cases).
+QUICK_SCALE = {"C01": 3, "C02": 4, "C03": 5, "C04": 3, "C05": 4, "C06": 4, "C07": 4, "C08": 5, "C09": 6, "C10": 5, "C11": 5, "C12": 5,
+               "C13": 4, "C14": 4, "C15": 5, "C16": 2.5, "C17": 1.5, "C18": 3, "C19": 1.5, "C20": 5}
+
+
+def n_examples(camp, tier, pid, nshards):
+    f = SCALE * (QUICK_SCALE.get(pid, 1) if tier == "quick" else 1)
+    return int(math.ceil(camp.examples[tier] * f / float(nshards)))
+
+
+def budget_of(camp, tier, pid):
+    return camp.budget[tier] * (QUICK_SCALE.get(pid, 1) if tier == "quick" and camp.kind != "enum" else 1)
 
 
 # --------------------------------------------------------------------------------------
@@ -296,12 +310,12 @@ def _task(args):
         ctx = Ctx(tier, seed, shard, nshards, scratch, camp.name)
         t0 = time.time()
         if camp.kind == "hyp":
-            n = int(math.ceil(camp.examples[tier] * SCALE / float(nshards)))
-            run_hyp(camp, ctx, mod.ID, n, shard_seed(seed, shard, camp_idx), camp.budget[tier])
+            n = n_examples(camp, tier, mod.ID, nshards)
+            run_hyp(camp, ctx, mod.ID, n, shard_seed(seed, shard, camp_idx), budget_of(camp, tier, mod.ID))
         elif camp.kind == "custom":
-            n = int(math.ceil(camp.examples[tier] * SCALE / float(nshards)))
+            n = n_examples(camp, tier, mod.ID, nshards)
             with contextlib.redirect_stdout(_SINK):
-                camp.run(ctx, tier, shard_seed(seed, shard, camp_idx), n, time.time() + camp.budget[tier])
+                camp.run(ctx, tier, shard_seed(seed, shard, camp_idx), n, time.time() + budget_of(camp, tier, mod.ID))
         else:
             run_enum(camp, ctx, mod.ID, camp.budget[tier])
         out = ctx.summary()
@@ -341,7 +355,7 @@ def shrink_key(mod, camp, camp_idx, key, tier, seed, shard, nshards, scratch_roo
     """Re-run the shard that found `key` with phases generate+shrink and an assertion on exactly
     that key. Returns the minimised case or None."""
     from hypothesis import given, seed as hseed, Phase
-    n = int(math.ceil(camp.examples[tier] * SCALE / float(nshards)))
+    n = n_examples(camp, tier, mod.ID, nshards)
     state = {"t0": None, "calls": 0, "best": None, "msg": ""}
     scratch = tempfile.mkdtemp(prefix="shrink_", dir=scratch_root)
 
